@@ -1048,6 +1048,7 @@ fn extract(ts: TokenStream) -> Result<(String, String, String, String), String> 
 
     // generics module
     let mut gen_names: Vec<String> = vec![];
+    let mut gen_defs: Vec<String> = vec![];
     let mut skipdef = "(missing)".to_string();
     match find_mod(items, "generics") {
         Some(gitems) => {
@@ -1059,6 +1060,11 @@ fn extract(ts: TokenStream) -> Result<(String, String, String, String), String> 
                         }
                         if t.ident == "Skipped" {
                             skipdef = texpr(&t.ty, &cx);
+                        } else {
+                            // the alias definition itself (generic parameters and right-hand side), compact token text
+                            let g = &t.generics;
+                            let ty = &t.ty;
+                            gen_defs.push(format!("({} {})", t.ident.unraw(), hexs(&toks_compact(&quote! { #g = #ty }))));
                         }
                     }
                     Item::Use(u) => {
@@ -1177,6 +1183,12 @@ fn extract(ts: TokenStream) -> Result<(String, String, String, String), String> 
     for n in &gen_names {
         generics.push(' ');
         generics.push_str(n);
+    }
+    generics.push(')');
+    generics.push_str(" (gendefs");
+    for d in &gen_defs {
+        generics.push(' ');
+        generics.push_str(d);
     }
     generics.push(')');
     let mut getters = String::from("(getters");
